@@ -101,7 +101,7 @@ Qed.
 Lemma insert_ok_call_ok c cl : insert_call_ok c cl = true -> call_ok c cl = true.
 Proof. destruct cl; cbn; auto; discriminate. Qed.
 Lemma inssel_ok_call_ok c cl : inssel_call_ok cl = true -> call_ok c cl = true.
-Proof. destruct cl as [a|a|a|a|f v|t s|w|n]; cbn; auto; try discriminate; destruct a; auto; discriminate. Qed.
+Proof. destruct cl as [a|a|a|a|f v|t s|w|n|t|t|s]; cbn; auto; try discriminate; destruct a; auto; discriminate. Qed.
 Lemma forallb_impl {A} (p q : A -> bool) l : (forall x, p x = true -> q x = true) -> forallb p l = true -> forallb q l = true.
 Proof. intros H. induction l as [|x r IH]; [auto|]. cbn. intros E. apply andb_prop in E as [E1 E2]. rewrite (H x E1), (IH E2). reflexivity. Qed.
 
@@ -135,7 +135,7 @@ Proof.
   induction cs as [|cl cs IH]; intros H; [repeat split; reflexivity|].
   cbn [forallb] in H. apply andb_prop in H as [Hc Hr]. destruct (IH Hr) as (I1 & I2 & I3).
   unfold rows_of_calls, sets_of_calls in *.
-  destruct cl as [a|a|a|a|f v|t s|w|n]; try discriminate Hc; try (destruct a; try discriminate Hc);
+  destruct cl as [a|a|a|a|f v|t s|w|n|t|t|s]; try discriminate Hc; try (destruct a; try discriminate Hc);
     cbn [flat_map fold_left limit_step app rows_of_call rows_of_args]; repeat split; auto.
 Qed.
 
